@@ -39,7 +39,9 @@ MkChunk(leaf, content, cuts, opt) ==
                 crc |-> opt.crc, stats |-> NoStatsW, hmut |-> IF opt.hmutPage = k THEN opt.hmut ELSE [kind |-> "none"]]
     IN [type |-> leaf.type, tlen |-> leaf.tlen, maxDef |-> leaf.maxDef, maxRep |-> leaf.maxRep, path |-> leaf.path,
         codec |-> opt.codec, codecTag |-> IF opt.codecTag # 255 THEN opt.codecTag ELSE opt.codec, dict |-> dict, dictOffsetField |-> opt.dictOffsetField, dictEnc |-> opt.dictEnc,
-        pages |-> [k \in 1..Len(cuts) |-> page(k)], stats |-> opt.stats]
+        pages |-> [k \in 1..Len(cuts) |-> page(k)], stats |-> opt.stats,
+        \* hostile-file hook (C04): hmutPage = 0 addresses the header of the dictionary page
+        dhmut |-> IF opt.hmutPage = 0 THEN opt.hmut ELSE [kind |-> "none"]]
 
 DefaultOpt == [style |-> "rle", idxStyle |-> "rle", useDict |-> FALSE, dictOffsetField |-> TRUE, dictEnc |-> 0, dataEnc |-> 8,
                crc |-> "none", codec |-> 0, stats |-> NoStatsW, extraWidth |-> 0, v2 |-> FALSE, encTag |-> 255, codecTag |-> 255, hmutPage |-> 0, hmut |-> [kind |-> "none"]]
